@@ -252,7 +252,7 @@ impl Prop for C01 {
         "C01"
     }
     fn rule(&self) -> String {
-        "cases = (text, syntax, style, quiet, unicode, charset, entry mode); classes: G1 corpus under all three syntaxes, G2 corpus + 1..4 token/char mutations (EOF truncations weighted up), G4 token soup from a Sass dictionary, G5 every built-in (global and sass:*) called with 0..4 well/ill-typed arguments, G6 raw bytes incl. invalid UTF-8 through from_path/@import/@use/@forward, G7 nesting-depth ladder 16..8192 (enumerated). Bracket depth is capped at 64 for G1-G6 (deeper = excluded, counted). Non-trivial = at least 3 tokens, not byte-identical to a corpus entry, and compiles or fails at a location other than 0:0; distinct = distinct (text, syntax, mode).".into()
+        "cases = (text, syntax, style, quiet, unicode, charset, entry mode); classes: G1 corpus under all three syntaxes, G2 corpus + 1..4 token/char mutations (EOF truncations weighted up), G3 generated programs (value-heavy sheets, rule trees, SassScript programs; SCSS and indented; 0..2 mutations; unmutated ones are bounded by construction, so an evaluation timeout is a violation), G4 token soup from a Sass dictionary, G5 every built-in (global and sass:*) called with 0..4 well/ill-typed arguments, G6 raw bytes incl. invalid UTF-8 through from_path/@import/@use/@forward, G7 nesting-depth ladder 16..8192 (enumerated). Bracket depth is capped at 64 for G1-G6 (deeper = excluded, counted). Non-trivial = at least 3 tokens, not byte-identical to a corpus entry, and compiles or fails at a location other than 0:0; distinct = distinct (text, syntax, mode).".into()
     }
     fn assumptions(&self) -> Vec<String> {
         vec![
@@ -311,9 +311,44 @@ impl Prop for C01 {
                 case.text = Bytes::from_vec(v);
                 case
             });
+        // G3: programs bounded by construction (value-heavy sheets, rule trees, SassScript programs),
+        // printed as SCSS / indented Sass, then 0..2 mutations. Unmutated ones must also terminate
+        // in the evaluation phase.
+        let g3 = (
+            any::<u8>(),
+            crate::gen::chooser::choices(160),
+            crate::gen::ruletree::tree(),
+            crate::gen::program::program_strategy(crate::gen::program::GenCfg { avoid_quoted_logs: false, avoid_calls_in_warn: false, avoid_space_splat: false, avoid_calls_in_named: false, ..Default::default() }),
+            proptest::collection::vec(mut_op(), 0..3),
+            cfg(),
+        )
+            .prop_map(|(k, ch, tree, prog, ops, mut c)| {
+                let (text, syntax) = match k % 5 {
+                    0 | 1 => {
+                        let mut cc = crate::gen::chooser::Chooser::new(&ch);
+                        (crate::gen::sheet::gen_sheet(&mut cc, crate::gen::sheet::SheetOpts { style_dependent_interp: true, scss_reread_safe: false }).scss, Syntax::Scss)
+                    }
+                    2 => {
+                        let t = crate::gen::ruletree::sanitize(&tree, true);
+                        if k % 2 == 0 && crate::gen::ruletree::sass_expressible(&t) {
+                            (crate::gen::ruletree::print_sass(&t), Syntax::Sass)
+                        } else {
+                            (crate::gen::ruletree::print_scss(&t), Syntax::Scss)
+                        }
+                    }
+                    3 => (crate::gen::program::print_scss(&prog).text, Syntax::Scss),
+                    _ => (crate::gen::program::print_sass(&prog).text, Syntax::Sass),
+                };
+                c.syntax = syntax;
+                let bounded = ops.is_empty();
+                let mut case = mk("G3-program", apply_mutations(&text, &ops), c);
+                case.bounded = bounded;
+                case
+            });
         let s = prop_oneof![
             2 => g1,
             8 => g2,
+            4 => g3,
             3 => g4,
             4 => g5,
             2 => g6,
